@@ -1,6 +1,7 @@
 import FoxModel.Lemmas.Proto
 import FoxModel.Lemmas.History
 import FoxModel.Lemmas.HistoryComplete
+import FoxModel.Lemmas.HistoryExact
 import FoxModel.Driver.Hist
 /-
   Property C05 — concurrent use is linearizable (protocol model; the Go runtime part is sampled by the `conc` stream
@@ -185,6 +186,90 @@ example : SeqH [wCall 1 2 1 5, rCall 3 4 1] ∧ ExposesVersion ctr ∧ checkHist
   · exact (checker_complete_seq ctr (by intro v st q n hn; simp [ctr] at hn; exact hn.symm) _
       ⟨by simp [wCall, rCall], by simp [wCall, rCall]⟩).2
       ⟨_, List.Perm.refl _, by simp [RT, wCall, rCall], by simp [runSeq, stepSeq, wCall, rCall, ctr]⟩
+
+/-! ### the exact checker: acceptance = linearizability, overlapping calls included -/
+
+/-- **The checker of record decides linearizability.** For every sequential specification `S` and every history whose
+    calls return after they are called (overlapping or not, any number of threads): `checkLin S h` accepts **iff** some
+    total order of the calls respects real time and is a legal sequential execution of `S`. With the commit order known
+    (the versions of the writes), that is: every call can be given a version - a write its own, a read one whose state
+    explains its result and whose installing write had been called when the read returned - such that a call that
+    returned before another was called has no greater version; the greedy assignment in call order finds the least one. -/
+theorem checker_exact {σ W Q : Type} (S : Sem σ W Q) (h : List (Call W Q)) (hst : ∀ c ∈ h, c.call ≤ c.ret) :
+    checkLin S h = true ↔ Linearizable S h := checkLin_iff S hst
+
+/-- the same for the specification the recorded fox histories are checked against; `wellStamped` is evaluated by the
+    driver on every history -/
+theorem checker_exact_fox (h : List (Call Fox.Driver.Hist.W Fox.Driver.Hist.Q)) (hst : wellStamped h = true) :
+    checkLin Fox.Driver.Hist.sem h = true ↔ Linearizable Fox.Driver.Hist.sem h := by
+  apply checkLin_iff
+  intro c hc
+  simpa using (List.all_eq_true.1 hst) c hc
+
+/-- **the checker as the driver runs it** (`checkLinFast`: first explaining segment from the lower bound on, lower bound
+    from the calls still pending) decides linearizability of the recorded fox histories -/
+theorem checker_as_run_exact (h : List (Call Fox.Driver.Hist.W Fox.Driver.Hist.Q)) (hst : wellStamped h = true) :
+    checkLinFast Fox.Driver.Hist.sem h = true ↔ Linearizable Fox.Driver.Hist.sem h := by
+  rw [checkLinFast_eq]
+  exact checker_exact_fox h hst
+
+/-- a rejection by the exact checker is never a false alarm -/
+theorem exact_rejection_not_linearizable {σ W Q : Type} (S : Sem σ W Q) (h : List (Call W Q))
+    (hst : ∀ c ∈ h, c.call ≤ c.ret) (hrej : checkLin S h = false) : ¬ Linearizable S h := by
+  intro hl
+  rw [checkLin_of_linearizable S hst hl] at hrej
+  cases hrej
+
+/-- what the exact checker accepts passes the four necessary conditions as well (they only serve the report now) -/
+theorem exact_implies_four_conditions {σ W Q : Type} (S : Sem σ W Q) (hv : ExposesVersion S) (h : List (Call W Q))
+    (hst : ∀ c ∈ h, c.call ≤ c.ret) (hc : checkLin S h = true) : checkHistory S h = true :=
+  checkHistory_of_checkLin S hv hst hc
+
+/-! non-vacuity, and the gap the exact checker closes: writer 1 is called at 1, commits version 1 and returns only at 100;
+    writer 2 is called at 10, commits version 2 and returns at 20; a read called at 30 still returns the initial state.
+    Each of the four necessary conditions holds (the read's segment 0 ends with writer 1, which has not returned), so
+    `checkHistory` accepts - but writer 2 returned before the read was called and version 2 follows version 1: the
+    history is not linearizable, and `checkLin` rejects it. With the read returning the current state it is accepted. -/
+def reg : Sem Nat Nat Unit where
+  init := 0
+  wr st x := (st + x, ⟨none, "ok"⟩)
+  rd _ st _ := ⟨none, if st = 0 then "zero" else "nonzero"⟩
+
+def gW1 : Call Nat Unit := ⟨1, 1, 100, .w 5, 1, ⟨none, "ok"⟩⟩
+def gW2 : Call Nat Unit := ⟨2, 10, 20, .w 7, 2, ⟨none, "ok"⟩⟩
+def gR (s : String) : Call Nat Unit := ⟨3, 30, 40, .r (), 0, ⟨none, s⟩⟩
+def gapH (s : String) : List (Call Nat Unit) := [gW1, gW2, gR s]
+
+theorem gap_sorted (s) : sortedWrites (gapH s) = [gW1, gW2] := by
+  unfold sortedWrites
+  have : (gapH s).filter Call.isW = [gW1, gW2] := by simp [gapH, List.filter, Call.isW, gW1, gW2, gR]
+  rw [this]
+  apply List.mergeSort_of_pairwise
+  simp [gW1, gW2]
+
+theorem gap_byCall (s) : byCall (gapH s) = gapH s := by
+  unfold byCall
+  apply List.mergeSort_of_pairwise
+  simp [gapH, gW1, gW2, gR]
+
+theorem gap_passes_the_four_conditions : checkHistory reg (gapH "zero") = true := by
+  unfold checkHistory
+  rw [gap_sorted]
+  simp [mkSegs, stepSeq, reg, gW1, gW2, gR, gapH, rtOk, readOk, segOk, adjOk, versioned, verSeen, pairOk]
+
+theorem gap_rejected_by_exact : checkLin reg (gapH "zero") = false := by
+  unfold checkLin
+  rw [gap_sorted, gap_byCall]
+  simp [mkSegs, stepSeq, reg, gW1, gW2, gR, gapH, assign, leastFrom, lowerBound, allowed, explains]
+
+theorem gap_not_linearizable : ¬ Linearizable reg (gapH "zero") :=
+  exact_rejection_not_linearizable reg _ (by simp [gapH, gW1, gW2, gR]) gap_rejected_by_exact
+
+theorem gap_fresh_read_linearizable : Linearizable reg (gapH "nonzero") := by
+  apply (checker_exact reg _ (by simp [gapH, gW1, gW2, gR])).1
+  unfold checkLin
+  rw [gap_sorted, gap_byCall]
+  simp [mkSegs, stepSeq, reg, gW1, gW2, gR, gapH, assign, leastFrom, lowerBound, allowed, explains]
 end Checker
 
 end Fox.C05
